@@ -21,3 +21,5 @@ import AriesVerif.C13.Textbook
 #print axioms Lin.atomic_sections_linearizable
 #print axioms Lin.perm_range_of_isPerm
 #print axioms Lin.linearizable_textbook
+#print axioms Interleave.open_store_one_object_per_name
+#print axioms Interleave.open_store_unlocked_two_objects
